@@ -91,6 +91,7 @@ type LoopSpec struct {
 	Invariants []*Clause
 	Decreases  *Clause
 	Houdini    bool
+	Lets       []*SpecMacro // names bound to values at the loop head (visible in the body and in inner loops)
 	SplitExit  bool // code after an unrolled loop is analysed separately per exit iteration
 }
 
@@ -614,6 +615,16 @@ func (cs *ContractSet) parseClause(body, pos, pkg string, cur **Contract) error 
 			ls.Unroll = k
 		case "houdini":
 			ls.Houdini = true
+		case "let":
+			j := strings.Index(r2, ":=")
+			if j < 0 {
+				return fmt.Errorf("loop let without :=")
+			}
+			e, err := parseExpr(strings.TrimSpace(r2[j+2:]), pos)
+			if err != nil {
+				return err
+			}
+			ls.Lets = append(ls.Lets, &SpecMacro{Name: strings.TrimSpace(r2[:j]), Body: e})
 		case "invariant", "decreases":
 			props, r := splitProps(r2)
 			e, err := parseExpr(r, pos)
